@@ -10,7 +10,7 @@
 import copy
 import logging
 
-from harness import common, ref
+from harness import common, ref, locktime
 from harness.common import Check, tier
 
 PID = 'C02'
@@ -203,7 +203,9 @@ def run_sequences(job):
                             for si in hits:
                                 sg = inp.signatures[si]
                                 inp.signatures[si] = Signature(sg.r, sg.s ^ 2 if 1 < (sg.s ^ 2) < ref.N else sg.s - 1, hash_type=sg.hash_type)
-                        if len(privs[j]) == 1 and not inp.signatures:
+                        if len(inp.signatures) < SHAPE[cfg[j][0]][1]:
+                            # update_scripts() rebuilds the unlocking data only from enough signatures: without this the object
+                            # would keep serializing the signatures just removed
                             inp.witnesses = []
                             inp.unlocking_script = b''
                         inp.update_scripts()
@@ -243,6 +245,11 @@ def run(replay=None):
     rng = ck.rng
     jobs = []
     nets = ['bitcoin', 'testnet', 'litecoin']
+    if replay and 'locktime' in replay['case']:
+        locktime.run_section(ck, thorough, replay)
+        return ck.finish()
+    if not replay:
+        locktime.run_section(ck, thorough)
     if replay:
         c = replay['case']
         jobs = [(c['seed'], [tuple(x) for x in c['kinds']], [c['steps']], c['network'])]
